@@ -159,6 +159,22 @@ def main (args : List String) : IO UInt32 := do
       for l in traceProgram ir impl do
         out.putStrLn l
     return 0
+  | ["predict", progFile] =>
+    let irs := parseBatch (← IO.FS.readFile progFile)
+    let out ← IO.getStdout
+    for ir in irs do
+      out.putStrLn s!"=== {ir.name}"
+      for l in Driver.predictProgram ir do
+        out.putStrLn l
+    return 0
+  | ["enumerate", progFile, limit] =>
+    let irs := parseBatch (← IO.FS.readFile progFile)
+    let out ← IO.getStdout
+    for ir in irs do
+      out.putStrLn s!"=== {ir.name}"
+      for l in Driver.enumerateProgram ir ((limit.toNat?).getD 1000) do
+        out.putStrLn l
+    return 0
   | ["selftest"] =>
     let ok := Rng.Vectors.rngSelfTest
     IO.println s!"rngSelfTest {ok}"
